@@ -145,6 +145,40 @@ theorem lists_disjoint_and_clean (n : Nat) (ops : List LOp) (x : Nat) :
   rw [List.count_eq_zero.2 h0, List.count_eq_zero.2 h1, List.count_eq_zero.2 h2, List.count_eq_zero.2 h3]
 
 open Lists in
+/-- **Re-buffering the non-root list after finalizers ran** (`collect`: `swap_list` then `mark_self_and_append
+(Mark::PossibleCycles, …)`) puts the list in front of what was buffered meanwhile, marks its members `PossibleCycles` with
+the tracing counter reset, empties the list and keeps the cached size exact — exactly the step `pc := N ++ pc` of the
+machine's `finalizePass`. -/
+theorem rebuffer_is_append {w : LW} {a : AW} (h : R w a) (i : Bool) :
+    let w2 := (w.step (.pcSwap i)).step (.pcAppend i 1)
+    let a2 := (a.step w.n (.pcSwap i)).step w.n (.pcAppend i 1)
+    R w2 a2 ∧ a2.p = a.getL i ++ a.p ∧ a2.getL i = [] ∧ w2.pc.size = (a.getL i).length + a.p.length ∧
+    (∀ x ∈ a.getL i, (w2.mem x).mark = 1 ∧ (w2.mem x).tc = 0) ∧
+    (∀ x, x ∉ a.getL i → (w2.mem x).mark = (w.mem x).mark ∧ (w2.mem x).tc = (w.mem x).tc) := by
+  intro w2 a2
+  have h1 := step_refines h (.pcSwap i)
+  have h2 := step_refines h1 (.pcAppend i 1)
+  rw [step_n] at h2
+  have hp : a2.p = a.getL i ++ a.p := by
+    simp only [a2, AW.step, AW.stepC]
+    cases i <;> simp [AW.getL, AW.setL]
+  have hl : a2.getL i = [] := by
+    simp only [a2, AW.step, AW.stepC]
+    cases i <;> simp [AW.getL, AW.setL]
+  have hm : ∀ x, a2.mark x = (if x ∈ a.getL i then 1 else a.mark x) ∧ a2.tc x = (if x ∈ a.getL i then 0 else a.tc x) := by
+    intro x
+    simp only [a2, AW.step, AW.stepC]
+    cases i <;> simp [AW.getL, AW.setL, setOn]
+  refine ⟨h2, hp, hl, ?_, ?_, ?_⟩
+  · rw [h2.size, hp, List.length_append]
+  · intro x hx
+    rw [h2.mark x, h2.tc x, (hm x).1, (hm x).2]
+    simp [hx]
+  · intro x hx
+    rw [h2.mark x, h2.tc x, (hm x).1, (hm x).2, h.mark x, h.tc x]
+    simp [hx]
+
+open Lists in
 /-- Non-vacuity: a run that buffers three boxes, removes the middle one and appends a list of two. -/
 example : (([LOp.pcAdd 0, .pcAdd 1, .pcAdd 2, .pcRemove 1, .llAdd false 3, .llAdd false 4, .pcAppend false 2].foldl
     (AW.step 5) {}).p = [2, 0, 4, 3]) := by decide
